@@ -8,6 +8,7 @@ pub mod util;
 pub mod big;
 pub mod uf;
 
+pub mod c02;
 pub mod c06;
 pub mod c07;
 pub mod c08;
